@@ -185,7 +185,7 @@ func c10Locks(c *Ctx, r *Report) {
 			})
 		})
 	}
-	r.Floor("lock sites", 12, n)
+	r.Floor("lock sites", 6, n)
 	_ = token.NoPos
 }
 
